@@ -285,6 +285,10 @@ func (g *G) intExpr(depth int, role string) *N {
 	}
 	g.budget--
 	chainW := g.p.ChainW
+	if g.p.Thoughtful && g.noBrace == 0 && g.t.Chance(1, 14) {
+		// try/Either as the enclosing handler: a failure in the body is absorbed
+		return &N{K: KTry, A: g.intExpr(depth-1, "try/recv"), B: g.funcLit(1, nil, false, true, depth, []string{"x"}), Str: "or", C: &N{K: KInt, Int: int64(700 + g.t.Intn(9))}}
+	}
 	switch g.t.Pick(5, 3, 1, 2, 2, 3, chainW, chainW) {
 	case 0:
 		return g.leafInt(role)
@@ -404,6 +408,10 @@ func (g *G) anyExpr(depth int, role string) *N {
 	}
 	g.budget--
 	lw := g.p.LitW
+	if g.p.Thoughtful && g.noBrace == 0 && g.t.Chance(1, 16) {
+		acc := []string{"val", "err?"}[g.t.Intn(2)]
+		return &N{K: KTry, A: g.intExpr(depth-1, "try/recv"), B: g.funcLit(1, nil, false, g.t.Chance(1, 2), depth, []string{"x"}), Str: acc}
+	}
 	switch g.t.Pick(6, lw, lw, lw/2, lw/2, lw/2, 2, g.p.ChainW, 2) {
 	case 0:
 		return g.intExpr(depth, role)
